@@ -862,10 +862,10 @@ class InterpStmts:
                             # staged assertions at the end of an iteration (proved first, then available as facts for the
                             # invariant re-establishment): they only add consequences; at_iter() refers to the start of THIS iteration
                             for hi, hint in enumerate(lc.get("step_hints") or []):
-                                sh = s2.copy()
-                                sh.entry2 = st.entry
-                                sh.entry = st
-                                g = self.eval_spec(hint, sh, {"done": done_next, **self.loop_ghost(spec)})
+                                s_hint = s2.copy()          # (must not reuse the name of the loop-head state `sh`: it is needed for the exit)
+                                s_hint.entry2 = st.entry
+                                s_hint.entry = st
+                                g = self.eval_spec(hint, s_hint, {"done": done_next, **self.loop_ghost(spec)})
                                 self.emit(s2, "assert", "%s.step_hint[%d]" % (label, hi), g)
                                 s2 = s2.assume(g)
                             s2c = s2.copy()
@@ -892,6 +892,9 @@ class InterpStmts:
         sx = sx.note("%s exit" % label)
         if self.feasible(sx):
             yield from self.exec_block(stmt.orelse, sx)
+        else:
+            # the invariants contradict the exit condition: everything after this loop would be vacuously "proved"
+            self.__dict__.setdefault("vacuous_exits", []).append("%s/%s exit" % (self.ob_prefix, label))
 
     def loop_ghost(self, spec):
         return {}
